@@ -101,3 +101,47 @@ def der_struct_mutations(data, walk):
         if bl:
             yield "body_ff", head + data[off : off + hl] + b"\xff" * bl + tail
             yield "body_00", head + data[off : off + hl] + b"\x00" * bl + tail
+
+
+def code_int_constants(*objs):
+    """Integer literals that occur in the code objects of the given functions / classes / modules
+    (recursively).  Used as a dictionary of 'magic numbers': values built from them (the constant
+    itself, its neighbours, its prime factors) are boundary candidates no random draw would hit."""
+    import types
+    seen, out = set(), set()
+
+    def from_code(co):
+        if id(co) in seen:
+            return
+        seen.add(id(co))
+        for c in co.co_consts:
+            if isinstance(c, bool):
+                continue
+            if isinstance(c, int):
+                out.add(c)
+            elif isinstance(c, tuple):
+                for x in c:
+                    if isinstance(x, int) and not isinstance(x, bool):
+                        out.add(x)
+                    elif isinstance(x, tuple):
+                        out.update(v for v in x if isinstance(v, int) and not isinstance(v, bool))
+            elif isinstance(c, types.CodeType):
+                from_code(c)
+
+    def visit(o, depth=0):
+        if isinstance(o, (staticmethod, classmethod)):
+            o = o.__func__
+        if hasattr(o, "__code__"):
+            from_code(o.__code__)
+        elif isinstance(o, type) and depth < 2:
+            for v in vars(o).values():
+                visit(v, depth + 1)
+        elif isinstance(o, types.ModuleType) and depth < 1:
+            for v in vars(o).values():
+                if getattr(v, "__module__", None) == o.__name__:
+                    visit(v, depth + 1)
+                elif isinstance(v, (list, tuple)) and len(v) < 5000 and all(isinstance(x, int) for x in v):
+                    out.update(v)
+    for o in objs:
+        visit(o)
+    return out
